@@ -113,7 +113,7 @@ class Gen:
 
     def atom(self):
         r = self.rng
-        return r.choice(["0", "1", "2", "3", "5", "7", "10", "$", "$", "$?", "$!", "()", ":a", ":b", '"s"', "'b'", "a", "b", "1.5", "42"])
+        return r.choice(["0", "1", "2", "3", "5", "7", "10", "$", "$", "$?", "$!", "()", ":a", ":b", '"s"', "'b'", "a", "b", "1.5", "42", "{ }"])
 
     def wrap(self, s, compound=True):
         if not compound:
@@ -234,6 +234,8 @@ FIXED_SOURCES = [
     "\"s\" 'b' :s a.b", "1\n\n2", "1 ; 2", "^~ 5", "$ < 3 ?> ^~ $ + 1", "(1 ?> 2) + (3 ?> 4 |> 5)", "{ { $ + 1 } <~ $ } <~ 1",
     "({ $ } ~ 1) <~ 2", "1..3", "(1 2 3).1", "(:a = 1).a", "#5", "5 ~# #\"\"", "1 == 1 && 2 == 2 || 3", "{ 1 ?> 2 |> 3 } ~~",
     "5 ;;", ";;", "1 ?> 2 ;;",
+    "1 + (5 ?> { })", "{ $ < 3 ?> ({ } <~ ($ + 1)) |> $ } <~ 0", "{ $ >= 3 ?> $ |> ({ } <~ ($ + 1)) } <~ 0", "a && { }", "5 ?> { }",
+    "1 + (a || { })", "[ ]", "[ 5 ]", "1 [ ]", "5 ~~ [6]", "(1 2) [3] 4",
 ]
 
 
